@@ -10,7 +10,6 @@ import (
 
 	"verifharness/internal/dx"
 	"verifharness/internal/gen"
-	"verifharness/internal/hx"
 )
 
 // lyingStore answers the victim ID with a foreign (trusted, unverified) chunk.
@@ -198,5 +197,4 @@ func selfTest(t *testing.T) {
 			fail("anyVerify(%+v) = %v", tc.b, got)
 		}
 	}
-	_ = hx.Shard
 }
